@@ -212,15 +212,6 @@ def probe_rodded(res, reg, dz, h_gap, t_gap, adiabatic, key, tdep,
     try:
         reg._update_coolant = _fake_cool
         reg._update_duct = _fake_duct
-        base = evaluate()
-        res.close('W_zero_power_invariance', float(np.max(np.abs(base - T0))),
-                  T0, 1e-12, 'uniform state is not a fixed point of the '
-                  'update without power', key)
-        nrow = base.size
-        rowsum = np.zeros(nrow)
-        diag = np.full(nrow, np.nan)
-        minw = 0.0
-        worst = None
         inputs = [('int', i) for i in range(n)]
         for b in range(nb):
             inputs += [('byp', (b, c)) for c in range(nd)]
@@ -231,18 +222,73 @@ def probe_rodded(res, reg, dz, h_gap, t_gap, adiabatic, key, tdep,
         for d in range(reg.n_duct):
             if wall_frozen[d]:
                 inputs += [('wall', (d, c)) for c in range(nd)]
-        for kind, idx in inputs:
-            col = (evaluate(kind, idx) - base) / eps
-            rowsum += col
-            if kind == 'int':
-                diag[idx] = col[idx]
-            elif kind == 'byp':
-                diag[n + idx[0] * nd + idx[1]] = col[n + idx[0] * nd + idx[1]]
-            m = float(np.min(col))
-            if m < minw:
-                minw = m
-                worst = (kind, idx, int(np.argmin(col)))
+
+        def scan():
+            cache.clear()
+            base = evaluate()
+            nrow = base.size
+            rowsum = np.zeros(nrow)
+            diag = np.full(nrow, np.nan)
+            minw = 0.0
+            worst = None
+            for kind, idx in inputs:
+                col = (evaluate(kind, idx) - base) / eps
+                rowsum += col
+                if kind == 'int':
+                    diag[idx] = col[idx]
+                elif kind == 'byp':
+                    diag[n + idx[0] * nd + idx[1]] = \
+                        col[n + idx[0] * nd + idx[1]]
+                m = float(np.min(col))
+                if m < minw:
+                    minw = m
+                    worst = (kind, idx, int(np.argmin(col)))
+            return base, nrow, rowsum, diag, minw, worst
+
+        base, nrow, rowsum, diag, minw, worst = scan()
+        res.close('W_zero_power_invariance', float(np.max(np.abs(base - T0))),
+                  T0, 1e-12, 'uniform state is not a fixed point of the '
+                  'update without power', key)
         tol = WTOL if not tdep else 1e-7
+        # The same operator with every material and correlated parameter at
+        # one of the two temperatures at which DASSH evaluates its limits:
+        # there the selected step must keep all weights non-negative. A
+        # negative weight that appears only with the properties of the actual
+        # state is the recorded finding F22; one that is already there at an
+        # evaluation temperature is not.
+        minw_ev = []
+        if minw < -tol and tdep and eval_temps:
+            keep = (t_int_mean, act_byp, act_duct)
+            fakes = {}
+            try:
+                for T_ev in eval_temps:
+                    for nm in ('_update_coolant', '_update_duct'):
+                        if nm in reg.__dict__:
+                            fakes[nm] = reg.__dict__.pop(nm)
+                    with drive.quiet():
+                        reg._update_coolant_int_params(
+                            T_ev, use_mat_tracker=False)
+                        if nb > 0:
+                            reg._update_coolant_byp_params([T_ev] * nb)
+                    for nm, f in fakes.items():
+                        reg.__dict__[nm] = f
+                    t_int_mean = float(T_ev)
+                    act_byp = [float(T_ev)] * nb
+                    act_duct = ([float(T_ev)] * reg.n_duct
+                                if reg._conv_approx else keep[2])
+                    minw_ev.append(float(scan()[4]))
+            finally:
+                t_int_mean, act_byp, act_duct = keep
+                for nm in ('_update_coolant', '_update_duct'):
+                    if nm in reg.__dict__:
+                        fakes[nm] = reg.__dict__.pop(nm)
+                with drive.quiet():
+                    reg._update_coolant_int_params(t_int_mean,
+                                                   use_mat_tracker=False)
+                    if nb > 0:
+                        reg._update_coolant_byp_params(act_byp)
+                for nm, f in fakes.items():
+                    reg.__dict__[nm] = f
         st = reg.subchannel.type
         typ = None
         if worst is not None:
@@ -304,10 +350,10 @@ def probe_rodded(res, reg, dz, h_gap, t_gap, adiabatic, key, tdep,
             beyond = bool(eval_temps) and (
                 max(t_state) > max(eval_temps) + 0.5 or
                 min(t_state) < min(eval_temps) - 0.5)
-            if lim_ends and lim_here < dz <= min(lim_ends) + 1e-12 and \
-                    (deficit < 0.02 or beyond):
+            if minw_ev and min(minw_ev) >= -tol:
                 k2['mech'] = 'limit_lower_at_actual_state_than_at_evaluation_temps'
             data_extra = {'limit_at_state': lim_here,
+                          'min_weight_at_evaluation_temps': minw_ev,
                           'state_temps': t_state,
                           'evaluation_temps': list(eval_temps or []),
                           'state_beyond_evaluation_range': beyond,
@@ -394,7 +440,7 @@ def probe_unrodded(res, reg, dz, h_gap, adiabatic, key, tdep):
             reg.coolant.update(sv.tc)
 
 
-def probe_gap(res, core, dz, key, tdep, t_duct):
+def probe_gap(res, core, dz, key, tdep, t_duct, eval_temps=None):
     """Weights of [T_gap, T_duct] -> new T_gap for the active gap model."""
     if core.model is None:
         return 0
@@ -418,10 +464,8 @@ def probe_gap(res, core, dz, key, tdep, t_duct):
             return core._noflow_model(td)
         return core._duct_average_model(td)
 
-    try:
+    def scan():
         base = np.array(evaluate(), copy=True)
-        res.close('W_zero_power_invariance', float(np.max(np.abs(base - T0))),
-                  T0, 1e-12, 'uniform gap state is not a fixed point', key)
         rowsum = np.zeros(n)
         minw = 0.0
         diag = np.zeros(n)
@@ -437,17 +481,45 @@ def probe_gap(res, core, dz, key, tdep, t_duct):
             for c in range(shape[1]):
                 if adj[a, c] <= 0:
                     continue
-                col = (np.array(evaluate(duct_idx=(a, c)), copy=True) - base) / eps
+                col = (np.array(evaluate(duct_idx=(a, c)), copy=True)
+                       - base) / eps
                 rowsum += col
                 if float(np.min(col)) < minw:
                     minw = float(np.min(col))
                     worst = ('duct', (a, c), int(np.argmin(col)))
+        return base, rowsum, diag, minw, worst
+
+    try:
+        base, rowsum, diag, minw, worst = scan()
+        res.close('W_zero_power_invariance', float(np.max(np.abs(base - T0))),
+                  T0, 1e-12, 'uniform gap state is not a fixed point', key)
         k2 = dict(key, region='gap', model=core.model)
-        res.check('W_nonneg_weights', minw >= -(WTOL if not tdep else 1e-7),
+        tol = WTOL if not tdep else 1e-7
+        minw_ev = []
+        if minw < -tol and tdep and eval_temps and core.model == 'flow':
+            # the same operator with the gap coolant at the two temperatures
+            # at which DASSH evaluates the gap step limit (see probe_rodded)
+            t_now = float(core.gap_coolant.temperature)
+            try:
+                for T_ev in eval_temps:
+                    with drive.quiet():
+                        core._update_coolant_gap_params(float(T_ev))
+                    minw_ev.append(float(scan()[3]))
+            finally:
+                with drive.quiet():
+                    core._update_coolant_gap_params(t_now)
+            if min(minw_ev) >= -tol:
+                k2['mech'] = ('gap_limit_lower_at_actual_state_than_at_'
+                              'evaluation_temps')
+        res.check('W_nonneg_weights', minw >= -tol,
                   'negative weight %.3e in the inter-assembly gap operator '
                   '(%s model; %r)' % (minw, core.model, worst), k2,
                   {'min_weight': minw, 'dz': dz,
-                   'min_selfweight': float(np.min(diag))})
+                   'min_selfweight': float(np.min(diag)),
+                   'min_weight_at_evaluation_temps': minw_ev,
+                   'evaluation_temps': list(eval_temps or []),
+                   'gap_coolant_temperature':
+                       float(core.gap_coolant.temperature)})
         res.stat('W_min_selfweight_gap_' + core.model, float(np.min(diag)))
         res.close('W_row_sums_one', float(np.max(np.abs(rowsum - 1.0))), 1.0,
                   1e-9 if not tdep else 1e-6,
@@ -669,7 +741,15 @@ def run_probe_case(case, res):
                 t_duct = np.array([dassh.mesh_functions.map_across_gap(
                     a.duct_outer_surf_temp, a.active_region._map['duct2gap'])
                     for a in r.assemblies])
-                rows[0] += probe_gap(res, r.core, dzmax, key, tdep, t_duct)
+                cm = inp.data['Core']['coolant_material'].lower()
+                with drive.quiet():
+                    # on a clone: the helper moves the material it is given
+                    t_out_core = float(dassh.utils.Q_equals_mCdT(
+                        r.total_power, r.inlet_temp,
+                        r.materials[cm].clone(), mfr=r.flow_rate))
+                rows[0] += probe_gap(res, r.core, dzmax, key, tdep, t_duct,
+                                     eval_temps=[float(r.inlet_temp),
+                                                 t_out_core])
 
         # estimated-outlet state used by the step criterion
         drive.sweep(r, on_step=probe_all)
@@ -790,4 +870,7 @@ def classify(v, case):
     if v['monitor'] == 'W_nonneg_weights' and k.get('mech') == \
             'limit_lower_at_actual_state_than_at_evaluation_temps':
         return 'F22'
+    if v['monitor'] == 'W_nonneg_weights' and k.get('mech') == \
+            'gap_limit_lower_at_actual_state_than_at_evaluation_temps':
+        return 'F25'
     return None
